@@ -63,6 +63,20 @@ check("C01",
       "TLA+ spec (Mating.tla) model-checked by TLC + TLC validation of recorded mate() executions",
       "DESIGN.md C01")
 
+check("C02",
+      "TLC makes the uniform draws an explicit variable on the grid u=U/4, p=J/4 and, for every probability vector, counts "
+      "grid points to check the exact identities: adjacent recombination = xoprob, non-adjacent = Haldane composition "
+      "(1-prod(1-2r))/2, independence of crossovers in different intervals, 1:1 segregation with 0.5 at the chromosome "
+      "start, independent assortment of chromosome starts; the '<=' variant must be rejected (non-vacuity). Every "
+      "(J,U) grid point is replayed through the real mat_meiosis and dense_meiosis with scripted dyadic draws and the "
+      "produced gamete is compared by TLC with the spec's gamete (decides '<' at the equality boundary, the starting "
+      "copy and segment copying exhaustively). Statistical sanity: real PCG64 streams through both functions and all "
+      "seven protocols, all locus pairs + segregation against TLC-computed exact probabilities.",
+      "Assumes numpy's generators are iid U[0,1); statistical sub-check at |z|<=5.5 with one independent 4x re-test; a "
+      "scripted replay whose draw requests differ in shape from the spec's is inapplicable (not a violation).",
+      "TLA+ spec (MeiosisProb.tla) exact counting by TLC + scripted-draw replay validated by TLC + z-tests on TLC-computed probabilities",
+      "DESIGN.md C02")
+
 def build():
     checks = []
     for pid in sorted(CHECKS):
